@@ -29,6 +29,10 @@ func init() {
 		{Name: "global name guarded by the wrong field", File: "internal/wat/printer/printer_globals.go", Old: "if g.Name != \"\" {", New: "if g.ExportName != \"\" {", Expect: "optional-name-guarded :: watPrinter.printGlobals"},
 		{Name: "data segment name glued to the keyword", File: "internal/wat/printer/printer_data.go", Old: "fmt.Fprint(p.w, \" \", watPrinter_identOrIndex(d.Name))", New: "fmt.Fprint(p.w, watPrinter_identOrIndex(d.Name))", Expect: "token-separation :: watPrinter.printData"},
 		{Name: "global type glued to the keyword", File: "internal/wat/printer/printer_globals.go", Old: "fmt.Fprint(p.w, \" \", g.Type)", New: "fmt.Fprint(p.w, g.Type)", Expect: "token-separation :: watPrinter.printGlobals"},
+		{Name: "inline export name printed with Go's %q", File: "internal/wat/printer/printer_funcs.go", Old: "fmt.Fprintf(p.w, \" (export %s)\", watPrinter_quote(fn.ExportName))", New: "fmt.Fprintf(p.w, \" (export %q)\", fn.ExportName)", Expect: "name-literal-quoted :: watPrinter.printFuncs"},
+		{Name: "imported function printed without its parameter names", File: "internal/wat/printer/printer_import.go", Old: "\t\t\tif x.Name != \"\" {\n\t\t\t\tfmt.Fprintf(p.w, \" (param %s %v)\", watPrinter_identOrIndex(x.Name), x.Type)\n\t\t\t} else {\n\t\t\t\tfmt.Fprintf(p.w, \" (param %v)\", x.Type)\n\t\t\t}", New: "\t\t\tfmt.Fprintf(p.w, \" (param %v)\", x.Type)", Expect: "param-names-printed :: watPrinter.printImport_func"},
+		{Name: "function body printed only when there are locals too", File: "internal/wat/printer/printer_funcs.go", Old: "if len(fn.Locals) != 0 || len(fn.Body.List) != 0 {", New: "if len(fn.Locals) != 0 && len(fn.Body.List) != 0 {", Expect: "list-print-guard"},
+		{Name: "function body guard compares with 1", File: "internal/wat/printer/printer_funcs.go", Old: "if len(fn.Locals) != 0 || len(fn.Body.List) != 0 {", New: "if len(fn.Locals) != 0 || len(fn.Body.List) != 1 {", Expect: "list-print-guard"},
 		{Name: "section printer not called", File: "internal/wat/printer/printer.go", Old: "\tif err := p.printElem(); err != nil {\n\t\treturn err\n\t}\n", New: "", Expect: "section-called"},
 	}})
 }
@@ -68,7 +72,8 @@ func runC05(c *Ctx) {
 	c.Explain = "Decides necessary structural clauses of print->parse identity for the WAT printer: (1) the instruction printer has an arm for every instruction token and prints that token's own mnemonic; " +
 		"(2) every field the parser stores in an instruction node, and every field of the module-level nodes, is read by the printer (a field the printer never reads cannot survive print->parse); nested instruction lists are iterated; " +
 		"(3) where the printer elides align=/offset= at a constant, the parser's default is the same constant or the elided value is not a legal alignment; (4) every section printer is called from Fprint. " +
-		"NOT decided: identifier/string escaping, number formatting, spacing, acceptance by other tools."
+		"(5) optional names are printed under a non-emptiness test, adjacent pieces of printed text never fuse two tokens, names are printed through the quoting function, parameter names are printed wherever parameters are. " +
+		"NOT decided: number formatting, acceptance by other tools, names that look like numbers ($0)."
 	c.Trusted = []string{"go/packages, go/types (x/tools v0.29.0)", "embedded WebAssembly 1.0 instruction table (natural alignments)"}
 	c.Exhaust = true
 	p := c.Load(LoadOpt{Light: true}, "./internal/wat/...")
@@ -86,6 +91,8 @@ func runC05(c *Ctx) {
 	c05ExportMergeOrder(c, p, pr, pp)
 	c05OptionalNames(c, p, pr, pp)
 	c05TokenSeparation(c, p, pp)
+	c05NamesQuoted(c, p, pp)
+	c05ListPrintGuard(c, p, pp)
 	ptypes := watParserTypes(pr)
 	c.Min(rEx, "parser token->type rows", len(ptypes), 170)
 	astFields := StructFields(as)
